@@ -113,6 +113,8 @@ PROPS = {
             ("sass::functions::map::find_value + get / has_key closures", "sass/functions/map.rs", r"^fn find_value"),
             ("sass::functions::map merge closure (do_merge)", "sass/functions/map.rs", r"fn do_merge"),
             ("sass::Value::do_evaluate (Map arm: map literals)", "sass/value.rs", r"Self::Map\(m\) =>"),
+            ("sass::functions::map::set_inner (map.set)", "sass/functions/map.rs", r"^fn set_inner"),
+            ("sass::functions::map::do_deep_merge (map.deep-merge)", "sass/functions/map.rs", r"^fn do_deep_merge"),
         ],
         "bounds": {
             "quick": "instantiation OrderMap<Key(u8) with == mod 4, u8>; from an ARBITRARY valid map of exactly 0,1,2,3 entries (symbolic "
@@ -148,7 +150,7 @@ PROPS = {
             ("rsass::variablescope::Scope::store_local_values / restore_local_values", "variablescope.rs", r"fn store_local_values"),
         ],
         "bounds": {"quick": "Scope::set_variable for ANY name/value, both flags symbolic, the existing binding arbitrary (absent / null / any value kind); define_global one step (inductive over the parent chain)"},
-        "outside": "which transform.rs / eval_body arms create sub-scopes (rules, mixins, functions vs flow control), store_local_values/restore_local_values around @each, parameters and loop variables being local (define() callers); the Mutex<BTreeMap> itself is an opaque event",
+        "outside": "which other transform.rs / eval_body arms create sub-scopes (rules, mixins, functions, @if), loops inside function bodies (eval_body), more than two iterations per loop (same loop body); the Mutex<BTreeMap> itself is an opaque event",
         "stubs": ["Scope::get_or_none returns an arbitrary Option<css::Value>", "Mutex::lock / BTreeMap::insert / define_global are events", "Name::split_module is forced to None (plain name) or Some (module.name)"],
         "assumptions": ["rustc nightly MIR text = the code that is compiled", "mirsym's MIR subset semantics (/verif/mirsym/sym.py)", "z3 5.1 and cvc5 1.0.3 (every query on both)"],
     },
@@ -230,9 +232,10 @@ PROPS = {
             ("<AtMediaDest as Drop>::drop", "output/cssdest.rs", r"impl Drop for AtMediaDest"),
             ("RuleDest / AtRuleDest / AtMediaDest :: start_atmedia, start_atrule", "output/cssdest.rs", r"fn start_atmedia\(&mut self, args: MediaArgs\) -> AtMediaDest<'_> \{"),
             ("rsass::output::transform::handle_item (Property / CustomProperty / NamespaceRule arms)", "output/transform.rs", r"Item::Property\(name, value, pos\) =>"),
+            ("rsass::output::transform::handle_item (Item::Each / For / While arms: error propagation)", "output/transform.rs", r"Item::Each\(names, values, body\) =>"),
         ],
         "bounds": {"quick": "the declaration arms of handle_item with every outcome of evaluation, CSS validation and the destination's answer; the @error arm of handle_item for any message/position; each of the three destination Drop impls from an arbitrary destination state, the parent's answer (Ok/Err) symbolic; "
-                            "the six start_atmedia / start_atrule methods from an arbitrary destination state"},
+                            "the six start_atmedia / start_atrule methods from an arbitrary destination state; the three loop arms with up to two iterations, every step Ok or Err"},
         "outside": "@error inside functions (eval_body) is checked only by native probes; which statements are accepted in which container (check_body); everything the parser decides; declarations pushed by other paths than the three declaration arms (e.g. plain CSS input)",
         "stubs": ["parent.push_item / commit_rule return Ok or Err (symbolic)", "eprintln! is an event"],
         "assumptions": ["rustc nightly MIR text = the code that is compiled", "mirsym's MIR subset semantics (/verif/mirsym/sym.py)"],
@@ -300,10 +303,11 @@ PROPS = {
         "e2": True,
         "functions": [("rsass::sass::FormalArgs::eval", "sass/formal_args.rs", r"pub fn eval\(&self, scope: ScopeRef, args: CallArgs\)"),
                       ("rsass::sass::Closure::eval_value", "sass/callable.rs", r"pub fn eval_value"),
-                      ("rsass::sass::MixinDecl::get (Sass arm)", "sass/mixin.rs", r"Self::Sass\(decl\) =>")],
+                      ("rsass::sass::MixinDecl::get (Sass arm)", "sass/mixin.rs", r"Self::Sass\(decl\) =>"),
+                      ("rsass::sass::CallArgs::evaluate (splat branches)", "sass/call_args.rs", r"css::Value::ArgList\(args\) => \{")],
         "bounds": {"quick": "one call of FormalArgs::eval with ANY declared parameter count, argument count and rest-parameter flag (symbolic), up to 2 parameters bound "
                             "positionally and 2 by name/default per call (loops unrolled twice), every outcome of the named lookup, default evaluation and define"},
-        "outside": "CallArgs::evaluate (splat handling), take_positional / only_named / check_no_named themselves (their contracts are assumed or their outcomes forked), "
+        "outside": "list splats and multi-element splats in CallArgs::evaluate, take_positional / only_named / check_no_named themselves (their contracts are assumed or their outcomes forked), "
                    "ScopeRef::eval_body (which @return is reached), @content, meta.keywords; name normalisation (`-`/`_`) lives in Name",
         "stubs": ["CallArgs::take_positional(n) returns min(n, #positional) values (contract assumed)", "OrderMap::remove, Value::do_evaluate, Scope::define, check_no_named: every Some/None resp. Ok/Err outcome",
                   "iterators over the formal parameters yield cells (name_k, default_k) with symbolic content"],
